@@ -196,6 +196,27 @@ def desugar_closures(text):
             recv0 = _recv_start(text, code, dot)
             recv = text[recv0:dot].rstrip()
             mc = _COLLECT.match(text, pc + 1)
+            # RECV.map(|P| B).filter(F).collect(): an iterator filter between the adapter and the collect (F a path such as
+            # Result::is_ok, or a closure |x| C over a reference to the element)
+            keep = None
+            if not mc and meth in ('map', 'filter_map'):
+                q = pc + 1
+                while q < len(text) and (not code[q] or text[q].isspace()):
+                    q += 1
+                if text.startswith('.filter(', q):
+                    fpo = q + len('.filter')
+                    fpc = _match_close(text, code, fpo)
+                    farg = text[fpo + 1:fpc].strip()
+                    mc2 = _COLLECT.match(text, fpc + 1)
+                    if mc2:
+                        if re.fullmatch(r'[A-Za-z_][\w:]*', farg):
+                            keep = lambda e_, farg=farg: '%s(&%s)' % (farg, e_)
+                        else:
+                            fp, fbody = _closure(text, code, fpo + 1, fpc)
+                            if fp is None:
+                                raise NoRule('filter closure without parameter')
+                            keep = lambda e_, fp=fp, fbody=fbody: '{ let %s = &%s; %s }' % (fp, e_, fbody)
+                        mc = mc2
             if meth == 'map_or':
                 # RECV.map_or(D, |P| B)  ->  match RECV { Some(P) => B, None => D }   (D is evaluated eagerly by map_or: only
                 # rewritten when D is a path / literal, whose evaluation has no effect)
@@ -267,14 +288,15 @@ def desugar_closures(text):
                         raise NoRule('and_then before collect')
                     k += 1
                     it, v, e = 'oq3_it%d' % k, 'oq3_v%d' % k, 'oq3_e%d' % k
+                    push = '%s.push(%s);' % (v, e) if keep is None else 'let oq3_keep = %s; if oq3_keep { %s.push(%s); }' % (keep(e), v, e)
                     if meth == 'map':
-                        arm = '{ let %s = %s; %s.push(%s); }' % (e, body, v, e)
+                        arm = '{ let %s = %s; %s }' % (e, body, push)
                     else:
-                        arm = '{ match %s { Some(%s) => { %s.push(%s); } None => {} } }' % (body, e, v, e)
+                        arm = '{ match %s { Some(%s) => { %s } None => {} } }' % (body, e, push)
                     new = ('{ let mut %s = %s; let mut %s = Vec::new();\n loop {\n match %s.next() {\n Some(%s) => %s\n None => { break; }\n }\n }\n %s }'
                            % (it, recv, v, it, p, arm, v))
                     end = mc.end()
-                    rule = 'D16 Iterator::%s + collect -> loop (%s, %s)' % (meth, it, v)
+                    rule = 'D16 Iterator::%s%s + collect -> loop (%s, %s)' % (meth, ' + filter' if keep is not None else '', it, v)
                 else:
                     if meth == 'filter_map':
                         raise NoRule('filter_map without collect')
